@@ -53,9 +53,11 @@ def labelled_field(df, mesh, nvdim, value, vdims, vdim_mapping, salt, **kw):
     mapping is written in another key order, the final labels being assigned afterwards (`f.vdims = ...`): the mapping
     must follow the components by NAME.  (Seeded change C12-11 rebuilt the mapping by position in the vdims setter; every
     operation that pairs components with axes - rotate90, curl, plots, arbitrary rotations - is wrong afterwards.)"""
-    if vdims and nvdim > 1 and vdim_mapping and len(vdim_mapping) == nvdim and int(salt) % 3 == 0 \
+    if vdims and nvdim > 1 and vdim_mapping and len(vdim_mapping) == nvdim and int(salt) % 3 in (0, 1) \
             and all(v in vdim_mapping for v in vdims):
-        tmp = [f"t{c}" for c in range(nvdim)]
+        # provisional labels: fresh names, or (salt % 3 == 1) the final labels rotated by one - then every label assigned
+        # afterwards is already a key of the old mapping and must still take the axis of its POSITION (seeded change C05-31)
+        tmp = [f"t{c}" for c in range(nvdim)] if int(salt) % 3 == 0 else [str(vdims[(c + 1) % nvdim]) for c in range(nvdim)]
         m0 = dict(reversed([(tmp[c], vdim_mapping[vdims[c]]) for c in range(nvdim)]))
         f = df.Field(mesh, nvdim=nvdim, value=value, vdims=tmp, vdim_mapping=m0, **kw)
         f.vdims = list(vdims)
